@@ -38,7 +38,12 @@ func genNodeTok(r *rand.Rand, salt int) string {
 		return b
 	}
 	var n util.Node
-	switch r.Intn(4) {
+	switch r.Intn(5) {
+	case 4:
+		vn := util.NewValueNode()
+		vn.SetValue(val())
+		vn.SetOrigin(util.Sequence(r.Intn(50)))
+		n = vn
 	case 0:
 		n = util.NewLeafNode(hexp(r.Intn(4)), hexp(1+r.Intn(5)), util.Sequence(r.Intn(50)), val())
 	case 1:
@@ -133,7 +138,7 @@ func (g *c06gen) newBlockWithParent(prev string) {
 func init() {
 	register(&Suite{
 		Name: "c07",
-		Rule: "random histories of set/remove/get/commit over several transaction caches per block and several block caches (committed, uncommitted, abandoned, all commit orders) with mutable values — byte slices with identity (even cases) and real trie nodes LeafNode/FullNode/ExtensionNode (odd cases) — where every value handed in or out is mutated in place right after the call and re-read through transaction, block, query and state layers; strict oracle (privacy: no foreign hit; publish: no miss within capacity); non-trivial = at least one hit from a pending layer and one hit from a committed ancestor, with at least 2 commits",
+		Rule: "random histories of set/remove/get/commit over several transaction caches per block and several block caches (committed, uncommitted, abandoned, all commit orders) with mutable values — byte slices with identity (even cases) and real trie nodes LeafNode / FullNode with and without a value / ExtensionNode / ValueNode (odd cases) — where every value handed in or out is mutated in place right after the call and re-read through transaction, block, query and state layers; strict oracle (privacy: no foreign hit; publish: no miss within capacity); non-trivial = at least one hit from a pending layer and one hit from a committed ancestor, with at least 2 commits",
 		Gen:  genC07,
 		Run: func(ops []string) CaseResult {
 			return runSCSeq(ops, true, true, func(w *scWorld) bool { return w.layerHits > 0 && w.ancestorHits > 0 && w.mutations >= 2 })
